@@ -18,6 +18,7 @@ import (
 	"os"
 	"os/exec"
 	"path/filepath"
+	"reflect"
 	"regexp"
 	"strconv"
 	"strings"
@@ -337,6 +338,12 @@ func genEdits() []chEdit {
 				}
 				if len(x) > 1 {
 					emit(path, kind, "list entry removed", replace(append([]interface{}{}, x[1:]...)))
+					// the order of a list is part of the configuration (relabel rules run in order, the first params value is the default ...)
+					if !reflect.DeepEqual(x[0], x[1]) {
+						sw := append([]interface{}{}, x...)
+						sw[0], sw[1] = sw[1], sw[0]
+						emit(path+"[order]", kind, "first two list entries swapped", replace(sw))
+					}
 				}
 			}
 		default:
@@ -534,20 +541,21 @@ func cmdCfgSync(args []string) error {
 		if err != nil {
 			return err
 		}
-		w := newSideWorld(dir, "")
-		// the shard runs the catalogue (pushed by an earlier cycle)
-		_ = w.apiPost("/api/v1/status/config", &shard.UpdateConfigRequest{RawContent: catalogueYAML}, nil)
-		promDown := len(done)%3 == 0
-		if promDown {
-			// the shard answered a runtime-info request before; now its Prometheus is down (head series not available)
-			var rt *shard.RuntimeInfo
-			_ = w.apiGet("/api/v1/shard/runtimeinfo/", &rt)
-			w.promDown = true
-			// ... and the shard is given the edited configuration by somebody else, while THIS coordinator stays on the catalogue
-			_ = w.apiPost("/api/v1/status/config", &shard.UpdateConfigRequest{RawContent: e.YAML}, nil)
+		fileMode := len(done)%3 == 1
+		var w *sideWorld
+		cfgFile := filepath.Join(dir, "prometheus.yml")
+		if fileMode {
+			// the sidecar reads its configuration from a file (and again on POST /-/reload/)
+			_ = os.WriteFile(cfgFile, []byte(catalogueYAML), 0644)
+			w = newSideWorldFile(dir, "", cfgFile)
+		} else {
+			w = newSideWorld(dir, "")
+			// the shard runs the catalogue (pushed by an earlier cycle)
+			_ = w.apiPost("/api/v1/status/config", &shard.UpdateConfigRequest{RawContent: catalogueYAML}, nil)
 		}
+		promDown := len(done)%3 == 0
 		coordYAML := e.YAML
-		if promDown {
+		if promDown || fileMode {
 			coordYAML = catalogueYAML
 		}
 		// the coordinator has reloaded the edited configuration
@@ -568,6 +576,27 @@ func cmdCfgSync(args []string) error {
 			func(uint64) *target.ScrapeStatus { return nil },
 			func() map[uint64]*discovery.SDTargets { return map[uint64]*discovery.SDTargets{} },
 			prometheus.NewRegistry(), quietLog())
+		if promDown {
+			// an earlier cycle of this coordinator (on the catalogue, like the shard) found the shard in sync; now the shard's
+			// Prometheus is down (head series not available) and the shard is given the edited configuration by somebody else,
+			// while THIS coordinator stays on the catalogue
+			_ = c.VerifRunOnce()
+			reqs = reqs[:0]
+			w.promDown = true
+			_ = w.apiPost("/api/v1/status/config", &shard.UpdateConfigRequest{RawContent: e.YAML}, nil)
+		}
+		if fileMode {
+			// an earlier cycle of this coordinator found the shard in sync (both on the catalogue); then the shard's file is
+			// edited and reloaded by hand, and the coordinator - still on the catalogue - runs its next cycle right away
+			_ = c.VerifRunOnce()
+			reqs = reqs[:0]
+			var rt0 *shard.RuntimeInfo
+			_ = w.apiGet("/api/v1/shard/runtimeinfo/", &rt0) // somebody else (another coordinator, a dashboard) asks in between
+			_ = os.WriteFile(cfgFile, []byte(e.YAML), 0644)
+			if err := w.apiPost("/-/reload/", nil, nil); err != nil {
+				_ = w.apiPost("/-/reload", nil, nil)
+			}
+		}
 		_ = c.VerifRunOnce()
 		applied := false
 		for _, r := range reqs {
@@ -591,10 +620,10 @@ func cmdCfgSync(args []string) error {
 		applied2, pushed2 := false, false
 		for _, r := range reqs {
 			applied2 = applied2 || r == "targets" || r == "extra"
-			pushed2 = pushed2 || r == "cfg"
+			pushed2 = pushed2 || r == "cfg" || r == "cfg-rejected"
 		}
 		same2 := string(w.cfgm.ConfigInfo().RawContent) == coordYAML
-		_ = wr.Write(map[string]interface{}{"path": e.Path, "class": e.Class, "kind": e.Kind, "what": e.What, "withExtraConfig": withExtra, "prometheusWasDown": promDown,
+		_ = wr.Write(map[string]interface{}{"path": e.Path, "class": e.Class, "kind": e.Kind, "what": e.What, "withExtraConfig": withExtra, "prometheusWasDown": promDown, "sidecarInFileMode": fileMode,
 			"reqs": reqs1, "treatedInSync": applied, "shardRunsCoordinatorConfig": same, "pushed": pushed,
 			"reqs2": append([]string{}, reqs...), "treatedInSync2": applied2, "pushedAgain": pushed2, "shardRunsCoordinatorConfig2": same2})
 		cleanupDir(dir)
@@ -622,7 +651,13 @@ func (m *syncManager) Shards() ([]*shard.Shard, error) {
 	sd.APIPost = func(u string, req interface{}, ret interface{}) error {
 		switch {
 		case strings.HasSuffix(u, "/status/config"):
-			*m.reqs = append(*m.reqs, "cfg")
+			err := m.w.apiPost(strip(u), req, ret)
+			if err != nil {
+				*m.reqs = append(*m.reqs, "cfg-rejected") // e.g. a sidecar in file mode does not take pushed configurations
+			} else {
+				*m.reqs = append(*m.reqs, "cfg")
+			}
+			return err
 		case strings.HasSuffix(u, "/extra_config"):
 			*m.reqs = append(*m.reqs, "extra")
 		default:
